@@ -6,8 +6,13 @@ ids=[p['id'] for p in props]
 
 # id -> (technique, level text, level note, design ref)
 BUILT={
+"C19": ("generated programs: a seeded grammar emits endpoint/channel declarations (the generator-side record) rendered as free functions, API-trait methods with an implementation, and the trait stub; compiled, then record vs routing vs OpenAPI and three-style differential",
+        "150 (thorough 500) declarations over method, path shapes, tags, all five version-range syntaxes with literals and const paths, operation_id, content_type, request_body_max_bytes (literal/const), deprecated, unpublished, extractor lists in both orders, all response kinds, custom error type, four doc-comment shapes, channels. For every declaration and 8 probe versions: lookup_route in each of the three styles returns the declared operation id, content type and body limit exactly for member versions and nothing otherwise; the OpenAPI operation shows the declared method, path, id, tags, deprecated flag, body content type and websocket extension, is absent when unpublished or out of range, and summary+description equal the doc-comment words once whitespace is removed; write() bytes of the three styles are identical at every version.",
+        "The declaration grammar is finite; compile-time rejection is out of scope; a generated program that does not compile is reported as INCONCLUSIVE (exit 2).",
+        "DESIGN.md section 4 C19"),
+
 "C07": ("proptest over (API, operation, seed): requests built from the OpenAPI document alone (schema-directed instance generator + OpenAPI-3.0 validator) replayed against live servers; responses validated against the document",
-        "For four compiled APIs (echo round trip and document-independent value endpoints for ~60 zoo types; typed path/query/JSON/form/multipart/raw endpoints; every response kind; paginated endpoints) plus generated API programs in the thorough tier: a request consisting of the documented path, all required parameters, a random subset of optional ones and a body the validator accepts for the documented request schema must be answered with a documented success status (handler entered once); status, content type and body of every response must be among those documented (body validated against the documented schema, required response headers present); omitting each required query parameter must give a 4xx without handler entry, and that framework error must validate against the documented error response.",
+        "For four compiled APIs (echo round trip and document-independent value endpoints for ~60 zoo types; typed path/query/JSON/form/multipart/raw endpoints; every response kind; paginated endpoints) plus two generated API programs (function style and trait style, served at three versions): a request consisting of the documented path, all required parameters, a random subset of optional ones and a body the validator accepts for the documented request schema must be answered with a documented success status (handler entered once); status, content type and body of every response must be among those documented (body validated against the documented schema, required response headers present); omitting each required query parameter must give a 4xx without handler entry, and that framework error must validate against the documented error response.",
         "Sampling; operations whose schemas use a string format the harness cannot generate are skipped and counted; instances are conservative (no properties the schema does not name); values returned by the value endpoints are restricted to those the type's own schema admits.",
         "DESIGN.md section 4 C07"),
 
@@ -100,16 +105,16 @@ for i in ids:
             "thorough_cmd": f"./check {i} thorough",
             "evidence_file": f"/verif/evidence/{i}.json",
             "replay_cmd_template": f"./check {i} quick --replay {{path}}",
-            "engine": "vcheck",
+            "engine": "vcheck" if i not in ("C07","C19") else "genapi",
             "level_claimed": {"category":"exploration","text":lt,"design_ref":ref},
             "level_note": ln,
             "technique": t,
         })
 na=[{"property_id":i,"reason":"check under construction in this session (see DESIGN.md section 4); will be claimed once built"} for i in ids if i not in BUILT]
 m={"version":1,
- "setup_cmd":"cd /verif/harness && CARGO_NET_OFFLINE=true cargo build --offline -p vcheck",
+ "setup_cmd":"cd /verif/harness && CARGO_NET_OFFLINE=true cargo build --offline",
  "hooks":{"guard":"dropshot_verif","enable":"no source hooks: every check observes dropshot through its public API; the harness crate depends on /repo/dropshot by path so each check rebuilds from the working tree","baseline_off_cmd":"cd /repo && cargo test --workspace --no-fail-fast --offline","source_commits":[],"add_only":True},
- "engines":[{"name":"vcheck","path":"/verif/harness/vcheck","serves_properties":[c["property_id"] for c in checks],"kind_free_text":"proptest 1.11 TestRunner driven from one binary (fixed seed from VERIF_SEED, shrinking, JSON replay files), explicit reference models, raw-socket HTTP/1.1 client; libFuzzer targets under /verif/fuzz for the thorough tier"}],
+ "engines":[{"name":"genapi","path":"/verif/harness/genapi","serves_properties":["C07","C19"],"kind_free_text":"crate whose src/generated.rs is written by `vcheck progen <seed> <n>` (proptest strategies sampled deterministically) and compiled against /repo; runs the C19 comparisons and the generated half of C07"},{"name":"vcheck","path":"/verif/harness/vcheck","serves_properties":[c["property_id"] for c in checks],"kind_free_text":"proptest 1.11 TestRunner driven from one binary (fixed seed from VERIF_SEED, shrinking, JSON replay files), explicit reference models, raw-socket HTTP/1.1 client; libFuzzer targets under /verif/fuzz for the thorough tier"}],
  "checks":checks,
  "not_applicable":na,
  "notes":"./check <id> <quick|thorough> [--replay file]; exit 0 held, 1 VIOLATION, 2 INCONCLUSIVE (build failure / watchdog / generator-health failure; never a violation). known_findings.json lists genuine defects (fixed ones suppress nothing)."}
